@@ -7,26 +7,34 @@ package validation
 // Notation: lang(F) is the regular language { s | F(s) } computed from the real body of F (its constant patterns),
 // re("...") is the language of an anchored RE2 pattern, cat/inter/union/comp are language operations and
 // rlen(a,b) is "any a..b characters". "Whitespace" is the rule dialect's own \s = [\t\n\f\r ].
+// byte_len: in these functions Go's len(s) is the UTF-8 byte length (blen), not the number of characters; the rules
+// count characters, so a length test written with len() is only right for ASCII input.
 
 //@ func ValidateType
 //@   props C18
 //@   inline
+//@   byte_len
 //@   ensures no_ws:       result ==> inre(typeString, re("^[^\\s]*$"))
 //@   ensures no_special:  result ==> inre(typeString, re("^[^:#@*]*$"))
 //@   ensures max_254:     result ==> inre(typeString, rlen(1, 254))
 //@   ensures accepts_word: inre(typeString, re("^[a-zA-Z0-9_-]{1,20}$")) ==> result
+//@   -- "enforced exactly": everything without whitespace and the four separators, 1..254 CHARACTERS long, is a type
+//@   ensures exact:       result <==> inre(typeString, inter(re("^[^:#@*\\s]+$"), rlen(1, 254)))
 
 //@ func ValidateRelation
 //@   props C18
 //@   inline
+//@   byte_len
 //@   ensures no_ws:      result ==> inre(relation, re("^[^\\s]*$"))
 //@   ensures no_special: result ==> inre(relation, re("^[^:#@*]*$"))
 //@   ensures max_50:     result ==> inre(relation, rlen(1, 50))
 //@   ensures accepts_word: inre(relation, re("^[a-zA-Z0-9_-]{1,20}$")) ==> result
+//@   ensures exact:      result <==> inre(relation, inter(re("^[^:#@*\\s]+$"), rlen(1, 50)))
 
 //@ func ValidateRelationshipCondition
 //@   props C18
 //@   inline
+//@   byte_len
 //@   ensures max_50:     result ==> inre(condition, rlen(1, 50))
 //@   ensures accepts_word: inre(condition, re("^[a-zA-Z0-9_-]{1,20}$")) ==> result
 //@   ensures no_ws:      result ==> inre(condition, re("^[^\\s]*$"))
@@ -34,6 +42,7 @@ package validation
 //@ func ValidateObjectID
 //@   props C18
 //@   inline
+//@   byte_len
 //@   ensures no_ws:        result ==> inre(relation, re("^[^\\s]*$"))
 //@   ensures no_separator: result ==> inre(relation, re("^[^:#]+$"))
 //@   ensures not_wildcard: result ==> relation != "*"
@@ -41,23 +50,29 @@ package validation
 //@ func ValidateObject
 //@   props C18
 //@   inline
+//@   byte_len
 //@   ensures one_colon: result ==> inre(object, re("^[^:]*:[^:]*$"))
 //@   ensures no_hash:   result ==> inre(object, re("^[^#]*$"))
 //@   ensures splits:    result ==> inre(object, cat(lang(ValidateType), ":", lang(ValidateObjectID)))
 //@   ensures len_2_256: result ==> inre(object, rlen(2, 256))
 //@   ensures accepts:   inre(object, re("^[a-z]{1,10}:[a-z0-9]{1,10}$")) ==> result
+//@   -- the object limit is enforced exactly, in characters: type ":" id of 2..256 characters is an object
+//@   ensures exact_limit: inre(object, inter(cat(lang(ValidateType), ":", lang(ValidateObjectID)), rlen(2, 256))) ==> result
 
 //@ func ValidateUserObject
 //@   props C18
 //@   inline
+//@   byte_len
 //@   ensures one_colon: result ==> inre(userObject, re("^[^:]*:[^:]*$"))
 //@   ensures splits:    result ==> inre(userObject, cat(lang(ValidateType), ":", lang(ValidateObjectID)))
 //@   ensures len_2_256: result ==> inre(userObject, rlen(2, 256))
 //@   ensures same_as_object: result == ValidateObject(userObject)
+//@   ensures exact_limit: inre(userObject, inter(cat(lang(ValidateType), ":", lang(ValidateObjectID)), rlen(2, 256))) ==> result
 
 //@ func ValidateUserSet
 //@   props C18
 //@   inline
+//@   byte_len
 //@   ensures one_colon:  result ==> inre(userSet, re("^[^:]*:[^:]*$"))
 //@   ensures one_hash:   result ==> inre(userSet, re("^[^#]*#[^#]*$"))
 //@   ensures hash_after: result ==> inre(userSet, re("^[^#]*:[^:]*#[^:]*$"))
@@ -66,11 +81,13 @@ package validation
 //@ func ValidateUserWildcard
 //@   props C18
 //@   inline
+//@   byte_len
 //@   ensures shape: result ==> inre(userWildcard, cat(lang(ValidateType), ":*"))
 //@   ensures all:   inre(userWildcard, cat(lang(ValidateType), ":*")) ==> result
 
 //@ func ValidateUser
 //@   props C18
+//@   byte_len
 //@   ensures is_union:          result == (ValidateUserSet(user) || ValidateObject(user) || ValidateUserWildcard(user))
 //@   -- pairwise disjointness, each through a separating language (the conjunction implies "not both"):
 //@   ensures userset_has_hash:   ValidateUserSet(user) ==> !inre(user, re("^[^#]*$"))
@@ -92,6 +109,8 @@ package validation
 //@ lemma condition_51_rejected {C18}:  !ValidateRelationshipCondition(repeat("c", 51))
 //@ lemma object_256_accepted {C18}:    ValidateObject(repeat("t", 100) + ":" + repeat("i", 155))
 //@ lemma object_257_rejected {C18}:    !ValidateObject(repeat("t", 100) + ":" + repeat("i", 156))
+//@ lemma object_256_non_ascii {C18}:  ValidateObject(repeat("\u00e9", 100) + ":" + repeat("i", 155))
+//@ lemma type_254_non_ascii {C18}:    ValidateType(repeat("\u00e9", 254))
 //@ lemma object_min_accepted {C18}:    ValidateObject("t:i")
 //@ lemma object_2_rejected {C18}:      !ValidateObject("t:") && !ValidateObject(":i")
 //@ lemma user_kinds {C18}:             ValidateUser("t:i") && ValidateUser("t:i#r") && ValidateUser("t:*") && !ValidateUser("t") && !ValidateUser("t:i#r#r")
